@@ -38,6 +38,7 @@ structure Ev where
   n : Nat
   /-- the hour has been inside the retention window at every moment since -/
   kept : Bool
+  deriving DecidableEq
 
 /-- Which reported number: the total or one category. -/
 inductive Sel where
